@@ -18,9 +18,9 @@ func ruleAtomicRMW(w *World, r *Report, rule string, la *LockAnalysis) {
 		info := u.pkg.TypesInfo
 		type ops struct {
 			load, store, cas bool
-			storePos        token.Pos
-			storeNode       ast.Node
-			name            string
+			storePos         token.Pos
+			storeNode        ast.Node
+			name             string
 		}
 		per := map[*types.Var]*ops{}
 		for _, nd := range u.flow.Nodes() {
@@ -179,32 +179,7 @@ func ruleListOrderPreserved(w *World, r *Report, rule string, la *LockAnalysis) 
 						continue
 					}
 					rhs := unparen(as.Rhs[i])
-					switch {
-					case isNilIdent(info, rhs):
-						ok = true
-					default:
-						if c, isC := rhs.(*ast.CallExpr); isC {
-							switch exprStr(c.Fun) {
-							case "make":
-								ok = true
-							case "append":
-								// append(list, x) or append(list[:i:i], list[i+1:]...)
-								if len(c.Args) >= 1 {
-									first := unparen(c.Args[0])
-									if fieldOf(info, first) == a.Field {
-										ok = true
-									}
-									if sl, isSl := first.(*ast.SliceExpr); isSl && fieldOf(info, sl.X) == a.Field && c.Ellipsis.IsValid() && len(c.Args) == 2 {
-										if tail, isT := unparen(c.Args[1]).(*ast.SliceExpr); isT && fieldOf(info, tail.X) == a.Field && tail.High == nil {
-											ok = true // order-preserving delete
-										}
-									}
-								}
-							case "slices.Delete", "slices.DeleteFunc":
-								ok = true
-							}
-						}
-					}
+					ok = orderPreserving(w, info, rhs, func(e ast.Expr) bool { return fieldOf(info, e) == a.Field }, 2)
 					if !ok {
 						why = "the descriptor list is assigned " + exprStr(rhs) + ", which is neither an append, a reset nor an order-preserving delete"
 					}
@@ -378,21 +353,7 @@ func ruleRemovalIdentity(w *World, r *Report, rule string) {
 			continue
 		}
 		// an identity comparison with the found descriptor selects the element
-		byIdentity := false
-		ast.Inspect(fi.Decl.Body, func(x ast.Node) bool {
-			if be, ok := x.(*ast.BinaryExpr); ok && (be.Op == token.EQL || be.Op == token.NEQ) {
-				if objOf(info, be.X) == found || objOf(info, be.Y) == found {
-					other := be.X
-					if objOf(info, be.X) == found {
-						other = be.Y
-					}
-					if !isNilIdent(info, other) {
-						byIdentity = true
-					}
-				}
-			}
-			return true
-		})
+		byIdentity := selectsByIdentity(w, fi, found, 2)
 		r.Check(byIdentity, rule, con, fi.Decl.Pos(), true,
 			"the element removed from the descriptor list is the very descriptor found in the services view",
 			"the element removed from the descriptor list is not selected by identity with the descriptor found in the services view")
@@ -404,6 +365,16 @@ func ruleRemovalIdentity(w *World, r *Report, rule string) {
 // evalCond evaluates cond under an assignment of atoms ("<base>.Key=nil", "<base>.Group=empty").
 func evalCond(info *types.Info, cond ast.Expr, base types.Object, keyNil, groupEmpty bool) (val bool, ok bool) {
 	switch x := unparen(cond).(type) {
+	case *ast.CallExpr:
+		// a predicate method of the descriptor: `func (d *Descriptor) isGroupMember() bool { return … }`
+		if rcv, _, isM := methodCall(x); isM && objOf(info, rcv) == base && theWorld != nil {
+			if t := theWorld.Decls[callee(info, x)]; t != nil && t.Decl.Recv != nil && len(t.Decl.Recv.List[0].Names) == 1 && len(t.Decl.Body.List) == 1 {
+				if ret, isR := t.Decl.Body.List[0].(*ast.ReturnStmt); isR && len(ret.Results) == 1 {
+					tinfo := t.Pkg.TypesInfo
+					return evalCond(tinfo, ret.Results[0], tinfo.Defs[t.Decl.Recv.List[0].Names[0]], keyNil, groupEmpty)
+				}
+			}
+		}
 	case *ast.UnaryExpr:
 		if x.Op == token.NOT {
 			v, ok := evalCond(info, x.X, base, keyNil, groupEmpty)
@@ -499,7 +470,7 @@ func ruleCheckInsertAgreement(w *World, r *Report, rule string) {
 			return true
 		}
 		if ret, ok := ifs.Body.List[0].(*ast.ReturnStmt); ok && len(ret.Results) == 1 && isNilIdent(cinfo, ret.Results[0]) {
-			if strings.Contains(exprStr(ifs.Cond), ".Group") || strings.Contains(exprStr(ifs.Cond), ".Key") {
+			if _, decided := evalCond(cinfo, ifs.Cond, cBase, true, true); decided {
 				skipCond = ifs.Cond
 			}
 		}
@@ -740,4 +711,134 @@ func ruleConstructorErrorPosition(w *World, r *Report, rule string) {
 	if n == 0 {
 		r.Fail(rule, "invoker#constructor-error-position", token.NoPos, "no function of the reflection package inspects a constructor result for an error: a constructor's error return is never reported")
 	}
+}
+
+// orderPreserving: e denotes the list (as recognised by isList) with elements
+// appended at the end or removed, the others keeping their order: the list
+// itself, nil / make, append(list, …), append(list[:i], list[j:]...),
+// slices.Delete/DeleteFunc(list, …), or a private helper all of whose returns are
+// such expressions over the parameter that receives the list.
+func orderPreserving(w *World, info *types.Info, e ast.Expr, isList func(ast.Expr) bool, depth int) bool {
+	e = unparen(e)
+	if isList(e) || isNilIdent(info, e) {
+		return true
+	}
+	c, ok := e.(*ast.CallExpr)
+	if !ok {
+		return false
+	}
+	switch exprStr(c.Fun) {
+	case "make":
+		return true
+	case "append":
+		if len(c.Args) == 0 {
+			return false
+		}
+		first := unparen(c.Args[0])
+		if isList(first) {
+			return true
+		}
+		if sl, isSl := first.(*ast.SliceExpr); isSl && isList(sl.X) && sl.Low == nil && c.Ellipsis.IsValid() && len(c.Args) == 2 {
+			if tail, isT := unparen(c.Args[1]).(*ast.SliceExpr); isT && isList(tail.X) && tail.High == nil {
+				return true // order-preserving delete
+			}
+		}
+		return false
+	}
+	cal := callee(info, c)
+	if isFunc(cal, "slices", "", "Delete") || isFunc(cal, "slices", "", "DeleteFunc") || isFunc(cal, "slices", "", "Clone") {
+		return len(c.Args) >= 1 && isList(c.Args[0])
+	}
+	if cal == nil || depth == 0 {
+		return false
+	}
+	t := w.Decls[cal]
+	if t == nil || cal.Exported() {
+		return false
+	}
+	// which parameter receives the list
+	var params []*ast.Ident
+	for _, f := range t.Decl.Type.Params.List {
+		params = append(params, f.Names...)
+	}
+	var po types.Object
+	for i, a := range c.Args {
+		if isList(a) && i < len(params) {
+			po = t.Pkg.TypesInfo.Defs[params[i]]
+		}
+	}
+	if po == nil {
+		return false
+	}
+	tinfo := t.Pkg.TypesInfo
+	okAll, any := true, false
+	// the parameter must not be written in place
+	ast.Inspect(t.Decl.Body, func(x ast.Node) bool {
+		if _, isLit := x.(*ast.FuncLit); isLit {
+			return false
+		}
+		switch s := x.(type) {
+		case *ast.ReturnStmt:
+			any = true
+			if len(s.Results) != 1 || !orderPreserving(w, tinfo, resolveLocal(tinfo, t.Decl.Body, s.Results[0], 2), func(e ast.Expr) bool { return objOf(tinfo, e) == po }, depth-1) {
+				okAll = false
+			}
+		case *ast.AssignStmt:
+			for _, l := range s.Lhs {
+				if ix, isIx := unparen(l).(*ast.IndexExpr); isIx && objOf(tinfo, ix.X) == po {
+					okAll = false
+				}
+			}
+		}
+		return true
+	})
+	return okAll && any
+}
+
+// selectsByIdentity: within fi (or a private helper that receives obj), obj is
+// compared with == / != against a non-nil operand, or is the needle of
+// slices.Index over a slice of pointers.
+func selectsByIdentity(w *World, fi *FuncInfo, obj types.Object, depth int) bool {
+	info := fi.Pkg.TypesInfo
+	found := false
+	ast.Inspect(fi.Decl.Body, func(x ast.Node) bool {
+		switch s := x.(type) {
+		case *ast.BinaryExpr:
+			if s.Op == token.EQL || s.Op == token.NEQ {
+				if objOf(info, s.X) == obj || objOf(info, s.Y) == obj {
+					other := s.X
+					if objOf(info, s.X) == obj {
+						other = s.Y
+					}
+					if !isNilIdent(info, other) {
+						found = true
+					}
+				}
+			}
+		case *ast.CallExpr:
+			cal := callee(info, s)
+			if isFunc(cal, "slices", "", "Index") && len(s.Args) == 2 && objOf(info, s.Args[1]) == obj {
+				if _, isPtr := obj.Type().Underlying().(*types.Pointer); isPtr {
+					found = true
+				}
+			}
+			if cal != nil && depth > 0 && !cal.Exported() {
+				if t := w.Decls[cal]; t != nil {
+					var params []*ast.Ident
+					for _, f := range t.Decl.Type.Params.List {
+						params = append(params, f.Names...)
+					}
+					for i, a := range s.Args {
+						if objOf(info, a) == obj && i < len(params) {
+							if selectsByIdentity(w, t, t.Pkg.TypesInfo.Defs[params[i]], depth-1) {
+								found = true
+							}
+						}
+					}
+				}
+			}
+		}
+		return true
+	})
+	return found
 }
